@@ -182,6 +182,7 @@ let mwops_of (s : string) : mwop list =
         | 'x' -> Some (MDel (bytes_of_hex (tail1 f)))
         | 'I' -> Some MBadInit
         | 'C' -> Some OCloseFails
+        | 'U' -> None   (* the uri lines given inline: the same file *)
         | _ -> failwith "mw") (split_on ',' s)
 
 let predict_m (c : string) (obs : string) : string * string * bool =
